@@ -208,7 +208,7 @@ theorem blocksLookup_flushBlocks (c : Cache) (k : Key) (t : TS) :
 theorem abs_flush (s : Shard) (k : Key) (t : TS) : s.flush.abs k t = s.abs k t := by
   unfold Shard.flush
   split
-  · rfl
+  · split <;> rfl
   · next hne =>
     simp only [Shard.abs, cacheLookup, List.find?_nil, Option.map_none, Option.none_or]
     rw [filesLookup_append]
